@@ -24,7 +24,7 @@ from .. import objects, tabular
 from ..snapshot import snap, diff
 
 PROP = "C16"
-RUNS = {"quick": 24000, "thorough": 600000}
+RUNS = {"quick": 36000, "thorough": 600000}
 WALL = {"quick": 200, "thorough": 2400}
 RUN_TIMEOUT = 120
 RULE = ("scenario = pool of 2-4 objects from one class family (variants: optional label arrays present/absent, grouped/ungrouped, "
